@@ -140,6 +140,9 @@ class Device:
         # a second ref WITHOUT access override to every target, declared after the refs that do override it: what one ref
         # overrides is that ref's business only (seed C17-7: a shared ref-target cache carried the override on)
         self.refs += [(f"Ref{tag(t)}ToKeepLate", f"RegOwn{tag(t)}", t, None) for t in OPT]
+        # refs that override the access AND the reset value (names ending in Rst): what else a ref overrides does not touch
+        # its access override (seed C17-9: the reset-value pass rebuilt the override without the access)
+        self.refs += [(f"Ref{tag(t)}To{tag(o)}Rst", f"RegOwn{tag(t)}", t, o) for t in OPT for o in OPT if o is not None]
         # registers nobody refers to (the RegOwn* ones are all re-opened by some ref that overrides the access)
         self.lone = [(f"LoneOwn{tag(o)}", o) for o in OPT]
         self.bufs = [(f"BufOwn{tag(o)}", o) for o in OPT]
@@ -169,7 +172,8 @@ class Device:
             addr += 1
         for name, target, _t, o in self.refs:
             acc = f" type Access = {o};" if o else ""
-            L.append(f"ref {name} = register {target} {{ const ADDRESS = {addr};{acc} }},")
+            rst = " const RESET_VALUE = 5;" if name.endswith("Rst") else ""
+            L.append(f"ref {name} = register {target} {{ const ADDRESS = {addr};{acc}{rst} }},")
             addr += 1
         for name, own in self.lone:
             acc = f" type Access = {own};" if own else ""
@@ -214,6 +218,8 @@ class Device:
             ov = {"type": "register", "address": addr}
             if o:
                 ov["access"] = o
+            if name.endswith("Rst"):
+                ov["reset_value"] = 5
             d[name] = {"type": "ref", "target": target, "override": ov}
             addr += 1
         for name, own in self.lone:
